@@ -4,6 +4,7 @@
      star_frame_proc/src/align1.rs           #[derive(Align1)]                               (align1_struct, align1_enum)
      star_frame_proc/src/zero_copy.rs        #[zero_copy(..)]                                (zc_attrs, zc_accepts)
      star_frame_proc/src/unsize/struct_impl.rs  the generated packed sized part, ZST_STATUS  (sized_accepts, struct_status)
+     star_frame_proc/src/unsize/enum_impl.rs    ZST_STATUS of an unsized enum                 (enum_status)
      bytemuck_derive-1.10.1/src/traits.rs    the derives zero_copy delegates to              (the bm_ functions)
 
    `reject_align` parameterises the Align1 derive: `true` is the REPAIRED rule (an `align(N)` hint with N > 1 aborts
@@ -380,7 +381,9 @@ Inductive uty :=
 | UChecked (size : Z)                     (* a CheckedBitPattern value: checked.rs 68  `size_of::<T>() != 0` *)
 | UList                                   (* List<T, u32>: list.rs 354  `size_of::<L>() != 0` *)
 | URemaining                              (* RemainingBytes: remaining_bytes.rs 65  `false` *)
-| UStruct (sized : option Z) (fs : list uty).   (* #[unsized_type] struct: optional sized part of that size, then fields *)
+| UStruct (sized : option Z) (fs : list uty)    (* #[unsized_type] struct: optional sized part of that size, then fields *)
+| UEnum (vs : list (option uty)).               (* #[unsized_type] #[repr(u8)] enum: per variant None = unit variant,
+                                                   Some t = one payload of type t (enum_impl.rs 104-127) *)
 
 (* the generated const (struct_impl.rs 642-647) over `with_sized_types` = sized part (if any) ++ unsized fields:
    `#(if !<all_but_last>::ZST_STATUS { panic!(..) })*  <last>::ZST_STATUS`;  None = the evaluation panics.
@@ -395,12 +398,32 @@ Fixpoint struct_status (cs : list (option bool)) : option bool :=
 Definition sized_status (s : option Z) : list (option bool) :=
   match s with Some n => [Some (negb (n =? 0))] | None => [] end.
 
+(* the generated const of an unsized enum (enum_impl.rs 450-452) over the payload types of its data-carrying variants
+   (unit variants contribute nothing): `true #(&& <payload>::ZST_STATUS)*`.  Every mentioned const is evaluated
+   (a required const of the initialiser, whatever `&&` short-circuits), so a payload whose own evaluation panics
+   makes the enum's evaluation fail; otherwise the value is the conjunction *)
+Fixpoint enum_status (cs : list (option bool)) : option bool :=
+  match cs with
+  | [] => Some true
+  | None :: _ => None
+  | Some b :: rest => match enum_status rest with Some r => Some (b && r) | None => None end
+  end.
+
+(* the payload types of the data-carrying variants, in declaration order (filtered_variant_types) *)
+Fixpoint data_variants (vs : list (option uty)) : list uty :=
+  match vs with
+  | [] => []
+  | Some t :: r => t :: data_variants r
+  | None :: r => data_variants r
+  end.
+
 Fixpoint zst_status (t : uty) : option bool :=
   match t with
   | UChecked n => Some (negb (n =? 0))
   | UList => Some true
   | URemaining => Some false
   | UStruct s fs => struct_status (sized_status s ++ map zst_status fs)
+  | UEnum vs => enum_status (flat_map (fun v => match v with Some p => [zst_status p] | None => [] end) vs)
   end.
 
 (* the least number of bytes a value of the type occupies *)
@@ -410,6 +433,9 @@ Fixpoint min_size (t : uty) : Z :=
   | UList => 4
   | URemaining => 0
   | UStruct s fs => (match s with Some n => n | None => 0 end) + zsum (map min_size fs)
+  | UEnum _ => 1          (* the discriminant is always present (repr(u8): one byte, enum_impl.rs 457, 476), then the
+                             payload of the current variant - nothing for a unit variant.  A lower bound for enums
+                             without a unit variant *)
   end.
 
 (* the components of a struct, as uty values (the sized part is one CheckedBitPattern value) *)
@@ -486,6 +512,9 @@ Definition umenu (c : Z) : option uty :=
   else if c =? 7 then Some (UChecked 8)
   else if c =? 8 then Some UList
   else if c =? 9 then Some (UChecked 1)
+  else if c =? 10 then Some (UEnum [None; Some UList; Some URemaining])      (* EnumMayEndEmpty *)
+  else if c =? 11 then Some (UEnum [None; Some UList])                       (* EnumNeverEmpty *)
+  else if c =? 12 then Some (UEnum [None; Some zst_at_end])                  (* EnumOfZstStruct *)
   else None.
 
 (* ---- list-of-integers parsing (fuel = structural recursion on a counter) ---- *)
